@@ -142,6 +142,7 @@ def make_jobs(tier, seed):
     for s in range(NSHARDS):
         jobs.append(('rand', seed * 1000003 + s, nrand // NSHARDS))
         jobs.append(('bias', seed * 1000003 + 500 + s, nrand // NSHARDS))
+        jobs.append(('loopy', seed * 1000003 + 700 + s, (4 * nrand) // NSHARDS))
     return jobs
 
 
@@ -227,6 +228,12 @@ def run_job(job, acc):
                 stmts = c02.random_grammar(r)
                 text, _, _ = gast.print_grammar(stmts)
                 check_text(P, text, r.choice(common.SHELLS), acc, 'random seed=%d #%d' % (s, i))
+        elif job[0] == 'loopy':
+            _, s, per = job
+            r = random.Random(s)
+            for i in range(per):
+                text, _, _ = gast.print_grammar(common.loopy_grammar(r))
+                check_text(P, text, 'bash', acc, 'loopy seed=%d #%d' % (s, i))
         else:
             _, s, per = job
             r = random.Random(s)
